@@ -48,6 +48,9 @@ class C09(Property):
              ("antismash/common/secmet/features/feature.py", "Feature.get_sub_location_from_protein_coordinates"),
              ("antismash/common/secmet/features/feature.py", "Feature.from_biopython"),
              ("antismash/common/secmet/features/cds_feature.py", "CDSFeature.from_biopython"),
+             ("antismash/common/secmet/features/cds_feature.py", "_ensure_valid_translation"),
+             ("antismash/common/secmet/features/cds_feature.py", "CDSFeature.translation"),
+             ("antismash/common/secmet/record.py", "Record.from_biopython"),
              ("antismash/common/secmet/features/feature.py", "Feature.to_biopython"),
              ("antismash/common/secmet/features/prepeptide.py", "Prepeptide.to_biopython"),
              ("antismash/common/secmet/features/prepeptide.py", "Prepeptide.from_biopython"),
@@ -75,7 +78,9 @@ class C09(Property):
             "ranges [s,e) biased to exon borders and to the invalid edges (s=-1, s>=e, e=total+1) x nucleotide offsets x "
             "codon_start 0..4 with undo (int and text forms) x leader/tail lengths (positioned, and written out + re-read via "
             "Prepeptide.from_biopython + positioned again) x TTA codon offsets x partial genes (fuzzy </> on any part edge, "
-            "ends beyond the product) x pfam/motif/domain feature creation on a real record; a random DNA string per case; "
+            "ends beyond the product) x pfam/motif/domain feature creation on a real record x CDS read through Record.from_biopython "
+            "with its own /transl_table (4/25/6/2/3/1/11 or none), no or invalid /translation and table-dependent codons in "
+            "frame; a random DNA string per case; "
             "thorough/deep: every gene with <=3 exons on a 1-grid of total length <=9 (+ all cuts of a ring of 12) x all "
             "ranges; non-trivial = multi-exon or origin-spanning gene with a valid range; distinct by canonical input")
     TRUSTED = ["Biopython: SimpleLocation/CompoundLocation.extract concatenates parts in list order and reverse-complements "
@@ -188,6 +193,33 @@ class C09(Property):
             e = s + 1
         return s, e
 
+    TABLE_CODONS = ["TGA", "TGA", "TAA", "TAG", "CTG", "ATA", "AGA", "AAA", "TTG", "GTG"]   # differ between tables 1/11/4/25/6/2/3
+
+    def cds_table_case(self, rng: random.Random, loc: Dict[str, Any], dna: str) -> Dict[str, Any]:
+        """a CDS read from a GenBank-like record with its own /transl_table (or none) and without a usable
+           /translation; codons whose meaning depends on the table are planted in frame"""
+        seq = list(dna)
+        rev = loc["parts"][0][2] == -1
+        positions = self.py_bases(loc)
+        aa = len(positions) // 3
+        for idx in rng.sample(range(aa), min(aa, rng.choice([1, 2, 3]))):
+            codon = rng.choice(self.TABLE_CODONS) if idx else rng.choice(["ATG", "TTG", "GTG", "ATA"])
+            for pos, ch in zip(positions[3 * idx:3 * idx + 3], codon):
+                seq[pos] = COMP[ch] if rev else ch
+        ranges = [[0, aa], [1, aa], [0, 1]] + [[rng.randrange(0, aa), rng.randrange(1, aa + 1)] for _ in range(3)]
+        return {"kind": "cds_table", "loc": loc, "dna": "".join(seq),
+                "qual": rng.choice([None, 4, 4, 4, 25, 6, 11, 1, 2, 3]),
+                # a non-bacterial record cannot be circular: antiSMASH then re-orders exons that are not in the
+                # standard order of their strand, which is not this property's business
+                "taxon": rng.choice(["bacteria", "fungi"]) if self.standard_order(loc) else "bacteria",
+                "given": rng.choice([None, None, None, "invalid"]), "ranges": [r for r in ranges if r[0] < r[1]]}
+
+    @staticmethod
+    def standard_order(loc: Dict[str, Any]) -> bool:
+        parts = loc["parts"]
+        rev = parts[0][2] == -1
+        return not any((a[0] < b[0]) if rev else (a[0] > b[0]) for a, b in zip(parts, parts[1:]))
+
     @staticmethod
     def without_stops(loc: Dict[str, Any], dna: str) -> str:
         """replace the first base of every in-frame stop codon of the gene by C (never makes a new stop)"""
@@ -252,6 +284,8 @@ class C09(Property):
                 tl2 = rng.choice([0, 1, (aa - ld2) // 2, aa - ld2 - 1] + [aa - b // 3 for b in self.borders(loc)[:-1]])
                 tl2 = min(max(tl2, 0), aa - ld2 - 1) if rng.random() < 0.95 else aa - ld2
                 yield dict(base, kind="prepeptide_rt", leader=ld2, tail=tl2)
+            if rng.random() < 0.3 and loc["parts"][0][2] in (1, -1) and aa >= 2:
+                yield self.cds_table_case(rng, loc, dna)
             if rng.random() < 0.35 and loc["parts"][0][2] in (1, -1):
                 s, e = self.rand_range(rng, loc, 3)
                 yield dict(base, kind=rng.choice(["motif", "domain", "pfam"]), s=s, e=e, dna=self.without_stops(loc, dna))
@@ -421,6 +455,8 @@ class C09(Property):
                 out.update(self._run_caller(case, location, seq, gene_extract))
             elif kind == "pfam":
                 out.update(self._run_pfam(case, location, seq, gene_extract))
+            elif kind == "cds_table":
+                out.update(self._run_cds_table(case, location, seq))
             elif kind == "tta_detect":
                 out.update(self._run_tta_detect(case, location))
             else:
@@ -540,6 +576,42 @@ class C09(Property):
                 "protein": [int(dom.protein_location.start), int(dom.protein_location.end)]}
 
     @staticmethod
+    def _run_cds_table(case: Dict[str, Any], location: Any, seq: Any) -> Dict[str, Any]:
+        """Record.from_biopython → CDSFeature.from_biopython generates the gene's translation; every sub-location
+           must encode, under the gene's OWN table, that stretch of the gene's translation"""
+        from Bio.SeqFeature import SeqFeature
+        from Bio.SeqRecord import SeqRecord
+        from antismash.common.secmet import Record
+        parts = case["loc"]["parts"]
+        rev = parts[0][2] == -1
+        spanning = any((a[0] < b[0]) if rev else (a[0] > b[0]) for a, b in zip(parts, parts[1:]))
+        bio = SeqRecord(seq, id="rec", name="rec")
+        bio.annotations["molecule_type"] = "DNA"
+        bio.annotations["topology"] = "circular" if spanning or len(parts) > 1 else "linear"
+        quals: Dict[str, List[str]] = {"locus_tag": ["gene"]}
+        if case["qual"] is not None:
+            quals["transl_table"] = [str(case["qual"])]
+        if case["given"] == "invalid":
+            quals["translation"] = ["M?K"]            # invalid characters: regenerated like a missing one
+        bio.features.append(SeqFeature(location, type="CDS", qualifiers=quals))
+        try:
+            record = Record.from_biopython(bio, taxon=case["taxon"])
+            gene = record.get_cds_by_name("gene")
+        except Exception as exc:  # pylint: disable=broad-except
+            return {"skipped": f"record refused: {str(exc)[:80]}"}
+        out: Dict[str, Any] = {"table": int(gene.transl_table), "record_table": int(record.transl_table),
+                               "gene_translation": str(gene.translation),
+                               "gene_loc": common.location_json(gene.location), "subs": []}
+        for s, e in case["ranges"]:
+            try:
+                sub = gene.get_sub_location_from_protein_coordinates(s, e)
+                out["subs"].append({"s": s, "e": e, "loc": common.location_json(sub),
+                                    "encoded": str(sub.extract(record.seq).translate(table=gene.transl_table))})
+            except Exception as exc:  # pylint: disable=broad-except
+                out["subs"].append({"s": s, "e": e, "err": _err(exc)["err"]})
+        return out
+
+    @staticmethod
     def _run_tta_detect(case: Dict[str, Any], location: Any) -> Dict[str, Any]:
         """whole-module run: plant TTA codons into the gene, detect, every marker must extract to TTA"""
         from argparse import Namespace
@@ -614,6 +686,14 @@ class C09(Property):
                         impl_tail=(obs.get("tail") or {}).get("loc"))
         elif kind == "tta":
             line.update(kind="tta", off=case["off"], impl=obs.get("loc"))
+        elif kind == "cds_table":
+            from Bio.Seq import Seq
+            extract = obs["gene_extract"]
+            usable = extract[:len(extract) // 3 * 3]
+            record_table = 11 if case["taxon"] == "bacteria" else 1
+            tables = sorted({record_table} | ({case["qual"]} if case["qual"] is not None else set()))
+            line.update(kind="cds_table", record_table=record_table, qual=case["qual"],
+                        aas=[[t, str(Seq(usable).translate(table=t))] for t in tables])
         elif kind == "tta_detect":
             line.update(kind="offsets", s=0, e=1, impl=None)   # only the scope / shape facts are used
         return line
@@ -638,6 +718,8 @@ class C09(Property):
         if not link_ok:
             return Judgement(False, True, in_scope=scope, tags=tuple(tags),
                              detail="Biopython extract disagrees with the transcription-order reading")
+        if kind == "cds_table":
+            return self._judge_cds_table(case, obs, drv, scope, tags)
         if kind == "pfam" and "skipped" in obs:
             tags.append("pfam-skipped")
             return Judgement(True, True, in_scope=scope, tags=tuple(tags))
@@ -816,6 +898,45 @@ class C09(Property):
         nontrivial = guard and scope and impl_err is None and (multi or drv["bridges"])
         proved = scope and (kind != "convert" or bool(spec["standard"]))   # convert_*: standard exon order only
         return Judgement(corr, spec_ok, in_scope=proved, nontrivial=nontrivial, tags=tuple(tags), detail=detail)
+
+    @staticmethod
+    def _judge_cds_table(case: Dict[str, Any], obs: Dict[str, Any], drv: Dict[str, Any], scope: bool,
+                         tags: List[str]) -> Judgement:
+        if "skipped" in obs:
+            tags.append("cds-skipped")
+            return Judgement(True, True, in_scope=scope, tags=tuple(tags))
+        if "err" in obs:
+            return Judgement(False, False, in_scope=scope, tags=tuple(tags), detail=f"adapter failed: {obs}")
+        model = drv["model"]
+        own = case["qual"] is not None
+        tags.append("own-table" if own else "record-table")
+        corr = obs["table"] == model["table"] and obs["gene_translation"] == model["translation"] \
+            and obs["gene_loc"] == case["loc"]
+        detail = "" if corr else f"model {model} vs implementation table {obs['table']} translation {obs['gene_translation']!r}"
+        spec_ok = obs["table"] == (case["qual"] if own else obs["record_table"])
+        translation = obs["gene_translation"]
+        differs = False
+        for sub in obs["subs"]:
+            s, e = sub["s"], sub["e"]
+            if e > len(translation):
+                continue            # beyond the (stop-terminated) product: nothing is claimed
+            if "err" in sub:
+                spec_ok = False
+                detail = f"residues [{s},{e}) of a {len(translation)}-residue product refused: {sub['err']}"
+                break
+            encoded = sub["encoded"].replace("*", "X")
+            want = translation[s:e]
+            if s == 0:                  # an alternate start codon is shown as M
+                encoded, want = "M" + encoded[1:], want
+            if encoded != want:
+                spec_ok = False
+                detail = (f"gene at {case['loc']['parts']} (transl_table {obs['table']}, translation {translation!r}): "
+                          f"residues [{s},{e}) -> {sub['loc']['parts']} encode {sub['encoded']!r} under the gene's table, "
+                          f"but that stretch of the gene's translation is {translation[s:e]!r}")
+                break
+        other = [a for t, a in drv.get("aas_echo", [])]
+        nontrivial = own and scope
+        return Judgement(corr, spec_ok or not scope, in_scope=scope, nontrivial=nontrivial, tags=tuple(tags), detail=detail)
 
     def shrink(self, case: Dict[str, Any]) -> Iterator[Dict[str, Any]]:
         loc = case["loc"]
